@@ -1093,6 +1093,20 @@ class Result:
         self.cuts = {}
 
 
+def _is_known(harness, v):
+    """does this violation match a listed known finding of the harness's property?"""
+    try:
+        import sys as _sys
+        from . import core as _core
+        mod = _sys.modules.get(getattr(harness, "__module__", ""))
+        prop = getattr(mod, "PROPERTY", None)
+        if prop is None:
+            return False
+        return _core.match_finding(prop, v, getattr(mod, "PREDICATES", {}) or {}, _core.load_findings()) is not None
+    except Exception:
+        return False
+
+
 def explore(harness, params=None, model="R", seed=0, witness_every=1, max_paths=None,
             max_violations=8, twin=False, name=None, shard=None):
     """exhaustive DFS over the feasible paths of harness(ctx, **params)"""
@@ -1178,7 +1192,10 @@ def explore(harness, params=None, model="R", seed=0, witness_every=1, max_paths=
             if vio_seen[key] > max_violations:
                 continue
             res.violations.append(_confirm(harness, params, model, v))
-        if stopfile and c.violations and any(v.get("status", "").startswith("confirmed") for v in res.violations):
+        if stopfile and c.violations and any(v.get("status", "").startswith("confirmed") and not _is_known(harness, v)
+                                             for v in res.violations):
+            # only a violation that is NOT a listed known finding decides the verdict; a known finding must
+            # never cut the exploration short (a different violation has to be reported still)
             try:
                 open(stopfile + ".violation", "w").close()
             except OSError:
@@ -1186,7 +1203,8 @@ def explore(harness, params=None, model="R", seed=0, witness_every=1, max_paths=
         # path witness: model of pc -> concrete re-run must agree on all observations
         if end == "ok" and witness_every and (n_done % witness_every == 0):
             _witness(harness, params, model, c, res)
-        if c.notes.get("fatal") and any(v.get("status", "").startswith("confirmed") for v in res.violations):
+        if c.notes.get("fatal") and any(v.get("status", "").startswith("confirmed") and not _is_known(harness, v)
+                                        for v in res.violations):
             res.stopped_early = "stopped after the confirmed violation of %r (each further path would cost a full time-out)" % c.notes["fatal"]
             if stopfile:
                 try:
